@@ -65,3 +65,12 @@ Definition hval_eqb (a b : hval) : bool :=
   | HPtr x, HPtr y => Nat.eqb x y | HDim0, HDim0 => true | HOne, HOne => true | _, _ => false end.
 Definition chk_hwpe (c : list string * list hval) : bool :=
   fields_ok hwpe_fields (Some (fst c)) && list_eqb hval_eqb (map snd hwpe_vals) (snd c).
+
+(* extension CSR values: rescale = [input_zp; multiplier[0]; output_zp; shift[0]] *)
+Definition std_csr (e : ekind) (r : rescale) : list Z :=
+  match e with
+  | ERescaleDown | ERescaleUp => [r_zpin r; nth 0 (r_mult r) 0; r_zpout r; nth 0 (r_shift r) 0]
+  | EAdd | EAddLong => [2] | ETranspose => [3] | EMemSet => [0] | EMaxPool => [1]
+  end.
+Definition chk_extcsr (c : ekind * rescale * list Z) : bool :=
+  match c with (e, r, vs) => list_eqb Z.eqb (std_csr e r) vs && Nat.eqb (List.length vs) (std_len e) end.
